@@ -44,6 +44,7 @@ type Ctx struct {
 
 	mu        sync.Mutex
 	samples   []interface{}
+	tagCount  map[string]int64
 	sampleCap int
 	viol      map[string]*Violation // by signature (first witness kept)
 	violCount map[string]int
@@ -159,6 +160,26 @@ func (c *Ctx) Sample(s interface{}) {
 	c.mu.Unlock()
 }
 
+// SampleTag keeps the 2nd, 1 000th and 100 000th case offered under a tag, so samples are
+// spread over the phases of a run instead of being its first few cases.
+func (c *Ctx) SampleTag(tag string, f func() interface{}) {
+	c.mu.Lock()
+	if c.tagCount == nil {
+		c.tagCount = map[string]int64{}
+	}
+	c.tagCount[tag]++
+	n := c.tagCount[tag]
+	c.mu.Unlock()
+	if n == 2 || n == 1000 || n == 100000 {
+		v := f()
+		c.mu.Lock()
+		if len(c.samples) < 40 {
+			c.samples = append(c.samples, v)
+		}
+		c.mu.Unlock()
+	}
+}
+
 func (c *Ctx) SampleCount() int { c.mu.Lock(); defer c.mu.Unlock(); return len(c.samples) }
 
 // Set stores an extra coverage key.
@@ -173,8 +194,9 @@ func (c *Ctx) Add(k string, n int64) {
 }
 
 // Violate records a violation. recheck, if non-nil, re-executes the witness and returns
-// the message it observes now ("" = no violation); it is run 5 times and must reproduce
-// the same message, otherwise the run is a harness error (exit 2).
+// the violation signature it observes now ("" = no violation); it is run 5 times and must
+// reproduce the same signature, otherwise the run is a harness error (exit 2). (Messages may
+// legitimately differ between runs in the order Go maps are iterated; signatures may not.)
 func (c *Ctx) Violate(v Violation, recheck func() string) {
 	c.mu.Lock()
 	c.violCount[v.Sig]++
@@ -185,8 +207,8 @@ func (c *Ctx) Violate(v Violation, recheck func() string) {
 	}
 	if recheck != nil {
 		for i := 0; i < 5; i++ {
-			if m := recheck(); m != v.Msg {
-				fmt.Printf("HARNESS-ERROR property=%s non-reproducible violation sig=%s first=%q replay%d=%q\n", c.ID, v.Sig, v.Msg, i, m)
+			if m := recheck(); m != v.Sig {
+				fmt.Printf("HARNESS-ERROR property=%s non-reproducible violation sig=%s msg=%q replay%d observed sig=%q\n", c.ID, v.Sig, v.Msg, i, m)
 				os.Exit(2)
 			}
 		}
